@@ -69,5 +69,17 @@ static void L_rt_num(uint32_t d, char follow)
 	v = strtoi_lim(buf, &ep, 0, 99);
 	__CPROVER_assert(n == 2 && v == (int32_t)d && ep == buf + 2, "L_rt_num: 2-digit field parses back");
 }
+/* %j: day of the year as __strfd_card prints it (ui999topstr, width argument (3 - 0) << 1 as at the call sites, zero padding, any buffer
+ * of at least 3 bytes) and as __strpd_card reads it back (strtoi_lim 1..366) */
+static void L_rt_j(uint32_t d, char follow, size_t bsz)
+{
+	char buf[8]; const char *ep;
+	__CPROVER_assume(d >= 1 && d <= 366 && bsz >= 3 && bsz <= 6 && (unsigned char)(follow ^ '0') >= 10U);
+	size_t n = ui999topstr(buf, bsz, d, 6, '0');
+	__CPROVER_assert(n == 3, "L_rt_j: %j prints 3 digits");
+	buf[n] = follow; buf[n + 1] = '\0';
+	int32_t v = strtoi_lim(buf, &ep, 1, 366);
+	__CPROVER_assert(v == (int32_t)d && ep == buf + 3, "L_rt_j: 3-digit day of the year parses back and stops at the next byte");
+}
 #endif
 #endif
